@@ -50,13 +50,44 @@ def _fresh(x):
     return type(x)() if isinstance(x, (list, dict)) else x
 
 
+class EqAll:
+    """an element that claims to be equal to everything (like unittest.mock.ANY)"""
+
+    def __init__(self, name):
+        self.name = name
+
+    def __eq__(self, other):
+        return True
+
+    def __hash__(self):
+        return 1
+
+    def __repr__(self):
+        return f"EqAll({self.name})"
+
+
+class EqRaises:
+    """an element that cannot be compared with == (numpy arrays behave like this inside `in` / bool())"""
+
+    def __init__(self, name):
+        self.name = name
+
+    def __eq__(self, other):
+        raise TypeError("this element does not support ==")
+
+    __hash__ = object.__hash__
+
+    def __repr__(self):
+        return f"EqRaises({self.name})"
+
+
 def same(got: Any, want: Any) -> bool:
     """identity for everything that can carry one; (type, value) for interned immutables"""
     if got is want:
         return True
-    if isinstance(want, (list, dict)) or type(got) is not type(want):
+    if type(got) is not type(want) or not isinstance(want, (int, float, str, tuple, bool, type(None))):
         return False
-    return got == want and isinstance(want, (int, float, str, tuple, bool, type(None)))
+    return got == want
 
 
 class Tok:
@@ -99,10 +130,13 @@ class Codec:
         elif profile == "plain":
             self.vals = [None] + [{j: (f"s{i}e{j}" if (salt + i) % 2 else 100 * i + j) for j in range(1, maxlen + 1)}
                                   for i in range(1, self.n + 1)]
+        elif profile in ("eqall", "eqraises"):      # elements with a hostile __eq__: no operator here may compare elements
+            cls = EqAll if profile == "eqall" else EqRaises
+            self.vals = [None] + [{j: cls(f"s{i}e{j}") for j in range(1, maxlen + 1)} for i in range(1, self.n + 1)]
         else:
             self.vals = [None] + [{j: _fresh(FALSY[(3 * i + j + salt) % len(FALSY)]) for j in range(1, maxlen + 1)}
                                   for i in range(1, self.n + 1)]
-        self.iter_vals = [None] + ([f"it{j}" for j in range(1, maxlen + 2)] if profile == "plain"
+        self.iter_vals = [None] + ([f"it{j}" for j in range(1, maxlen + 2)] if profile in ("plain", "eqall", "eqraises")
                                    else [_fresh(FALSY[(j + salt) % len(FALSY)]) for j in range(1, maxlen + 2)])
 
     def tok(self, x: Any) -> Optional[int]:
@@ -376,8 +410,14 @@ def judge(scn, allowed, var) -> Any:
         extra = {"cmp_code": scn["par"]["cmp"], "comparer_args_swapped": bool(g2 and g2["cod"].swapped)}
     return {**extra, "engine": "combine", "op": scn["op"], "n": scn["n"], "scn": scn, "var": var, "expected": allowed,
             "observed": describe(got), "reason": reasons[0], "reason_kind": reasons[0].split(":")[0],
-            "form": var["form"], "kinds": "".join(var["kinds"]), "sched": var.get("sched", "test"),
+            "form": var["form"], "kinds": "".join(var["kinds"]), "sched": var.get("sched", "test"), "profile": var["profile"],
             "observed_kinds": "".join(k for _, k, _ in rec),
+            # witness predicates for known findings
+            "observed_elements": sum(1 for _, k, _ in rec if k == "N"), "dispose_in_on_next": scn.get("dk", 0) > 0,
+            # the run is an allowed one except that no element at all reached the subscriber
+            "allowed_but_for_missing_elements": not any(k == "N" for _, k, _ in rec) and any(
+                compare(scn, dict(a, out=[e for e in a["out"] if e["k"] != "N"]), got) is None for a in allowed),
+            "escaped_type": type(got["escaped"]).__name__ if got["escaped"] is not None else None,
             "observed_terminal": rec[-1][1] if rec and rec[-1][1] != "N" else "none",
             "expected_terminals": sorted({(a["out"][-1]["k"] if a["out"] and a["out"][-1]["k"] != "N" else "none") for a in allowed})}
 
